@@ -91,6 +91,7 @@ type Contracts struct {
 	Tracks       map[string]string // pkg::(Iface).Method -> ghost set of receivers it was called on
 	Monitors     map[string]*MonitorDecl // pkgpath.Type.field
 	NeverSent    map[string]bool         // pkgpath.Type.field: channel-typed field nobody ever sends on (checked syntactically)
+	ImmHeapTypes []SortAlias             // Go types whose heap is never written after construction (declared; stores are obligations)
 }
 
 type SortAlias struct {
@@ -105,7 +106,7 @@ type GlobalFact struct {
 var clauseKeywords = map[string]bool{
 	"func": true, "requires": true, "ensures": true, "modifies": true, "preserves": true, "refinedby": true, "monitor": true, "protects": true, "track": true, "before": true, "panics": true, "maypanic": true,
 	"loop": true, "invariant": true, "decreases": true, "spec": true, "lemma": true, "induct": true,
-	"smt": true, "smtlate": true, "closed": true, "neversent": true, "fieldinv": true, "inline": true, "sort": true, "global": true, "package": true, "ghost": true, "type": true, "trusted": true, "props": true, "use": true, "hdruse": true, "axiom": true, "pattern": true, "opaque": true,
+	"smt": true, "smtlate": true, "closed": true, "neversent": true, "immutableheap": true, "fieldinv": true, "inline": true, "sort": true, "global": true, "package": true, "ghost": true, "type": true, "trusted": true, "props": true, "use": true, "hdruse": true, "axiom": true, "pattern": true, "opaque": true,
 }
 
 var reFuncHdr = regexp.MustCompile(`^func\s+(.+)$`)
@@ -211,6 +212,9 @@ func (cs *Contracts) loadContractFile(path string, pkg string, goFile bool) erro
 				return fmt.Errorf("%s:%d: sort NAME GoType", path, l.no)
 			}
 			cs.SortAliases[rest[:i]] = SortAlias{rest[:i], pkg, strings.TrimSpace(rest[i:])}
+			curF, curLoop, curL = nil, nil, nil
+		case "immutableheap":
+			cs.ImmHeapTypes = append(cs.ImmHeapTypes, SortAlias{Name: "imm:" + rest, Pkg: pkg, GoExpr: rest})
 			curF, curLoop, curL = nil, nil, nil
 		case "neversent":
 			cs.NeverSent[pkg+"."+rest] = true
